@@ -312,6 +312,56 @@ func runC15(r *vk.Run) {
 			c.Sample("render", map[string]any{"containers": len(names), "entries": len(all), "output_head": trunc(string(out), 300)})
 		}
 	})
+	// end to end: the plugin binary with its real flags against the fake daemon, 12 containers
+	r.Phase("e2e", r.N(16, 160), func(c *vk.Case) {
+		rng := c.Rng
+		nc := vk.Pick(rng, []int{1, 7, 8, 12})
+		var inv []CSpec
+		var all []renderEntry
+		for i := 0; i < nc; i++ {
+			cs := CSpec{ID: fmt.Sprintf("id%02d", i), Name: fmt.Sprintf("/ctr-%d", i), Image: "img", State: "running"}
+			ts := int64(1700000000)*1e9 + int64(rng.Intn(3))*1e9
+			for j := 0; j < rng.Range(0, 4); j++ {
+				ts += int64(rng.Intn(2)) * 1e9 // ties across containers
+				ts += int64(rng.Intn(2)) * int64(rng.Intn(1e9))
+				body := vk.Pick(rng, c15MsgAtoms) + vk.Pick(rng, c15MsgAtoms) + vk.Pick(rng, []string{"\n", "\r\n", "", "\n\n"})
+				cs.Frames = append(cs.Frames, Frame{Type: byte(1 + j%2), TS: ts, Body: body})
+				all = append(all, renderEntry{Container: fmt.Sprintf("ctr-%d", i), TS: ts, Msg: body})
+			}
+			inv = append(inv, cs)
+		}
+		d, err := startFakeDaemon(inv, false)
+		if err != nil {
+			c.R.Inconclusive("fake daemon: " + err.Error())
+			return
+		}
+		defer d.Close()
+		opt := c.Idx % 8
+		showTS, showName, color := opt&1 != 0, opt&2 != 0, opt&4 != 0
+		pr, err := runPlugin(d, 60*time.Second, `{container=~"ctr.*"}`, "--start", "1699990000", "--end", "1700009999",
+			fmt.Sprintf("--timestamp=%v", showTS), fmt.Sprintf("--container=%v", showName), fmt.Sprintf("--color=%v", color))
+		c.Eval(1)
+		if err != nil {
+			c.R.Inconclusive("cannot run plugin binary: " + err.Error())
+			return
+		}
+		det := map[string]any{"inventory": inv, "timestamp": showTS, "container": showName, "color": color, "stdout": string(pr.Stdout), "stderr": string(pr.Stderr), "exit": pr.Exit}
+		if pr.TimedOut || pr.Exit != 0 {
+			c.Fail("", fmt.Sprintf("plugin failed with %d containers (timestamp=%v container=%v color=%v): exit=%d %s", nc, showTS, showName, color, pr.Exit, trunc(string(pr.Stderr), 400)), det)
+			return
+		}
+		if !color && bytes.IndexByte(pr.Stdout, 0x1b) >= 0 {
+			c.Fail("", "e2e: colour off but output contains an escape sequence", det)
+			return
+		}
+		if msg, _ := consumeOutput(pr.Stdout, all, showTS, showName, color); msg != "" {
+			c.Fail("", fmt.Sprintf("e2e timestamp=%v container=%v color=%v: %s", showTS, showName, color, msg), det)
+			return
+		}
+		c.Count("e2e_renders", 1)
+		c.Nontrivial(fmt.Sprintf("e2e%d", c.Idx))
+	})
+	r.Require("e2e_renders", 8)
 	r.Require("renders", 8000)
 	r.Require("distinct:option_combinations", 8)
 	r.Require("equal_timestamp_groups", 500)
